@@ -73,7 +73,59 @@ fn show(d: &VectorDiff<u32>) -> String {
     format!("{d:?}")
 }
 
+/// A vector with the given contents whose internal structure (leaves, offsets) comes from a history: built
+/// in one go, carved out of a larger vector at the back, the front or the middle, or grown from both ends.
+fn shaped(rng: &mut Rng, items: &[u32]) -> Vector<u32> {
+    let n = items.len();
+    let pad = |rng: &mut Rng| -> Vec<u32> { (0..rng.range(1, 200)).map(|i| 1000 + i as u32).collect() };
+    let v: Vector<u32> = match rng.below(6) {
+        0 => items.iter().copied().collect(),
+        1 => {
+            let front = pad(rng);
+            let big: Vector<u32> = front.iter().chain(items).copied().collect();
+            big.skip(front.len())
+        }
+        2 => {
+            let big: Vector<u32> = items.iter().copied().chain(pad(rng)).collect();
+            big.take(n)
+        }
+        3 => {
+            let front = pad(rng);
+            let mut big: Vector<u32> = front.iter().chain(items).copied().chain(pad(rng)).collect();
+            let mut mid = big.split_off(front.len());
+            mid.truncate(n);
+            mid
+        }
+        4 => {
+            let mut w = Vector::new();
+            let cut = rng.below(n + 1);
+            for x in items[..cut].iter().rev() {
+                w.push_front(*x);
+            }
+            for x in &items[cut..] {
+                w.push_back(*x);
+            }
+            w
+        }
+        _ => {
+            let front = pad(rng);
+            let mut big: Vector<u32> = front.iter().chain(items).copied().collect();
+            for _ in 0..front.len() {
+                big.pop_front();
+            }
+            big
+        }
+    };
+    assert!(v.iter().copied().eq(items.iter().copied()), "harness: shaped vector differs from its contents");
+    v
+}
+
 fn check_one(v: &[u32], d: &VectorDiff<u32>, out: &mut Outcome, case: &serde_json::Value) {
+    let vec0: Vector<u32> = v.iter().copied().collect();
+    check_one_on(v, vec0, d, out, case)
+}
+
+fn check_one_on(v: &[u32], vec0: Vector<u32>, d: &VectorDiff<u32>, out: &mut Outcome, case: &serde_json::Value) {
     out.ev.evaluations += 1;
     let fail = |out: &mut Outcome, what: String| {
         out.violations.push(Violation {
@@ -85,7 +137,6 @@ fn check_one(v: &[u32], d: &VectorDiff<u32>, out: &mut Outcome, case: &serde_jso
     };
     let mut m = v.to_vec();
     let ok = model_apply(d, &mut m);
-    let vec0: Vector<u32> = v.iter().copied().collect();
     // apply: panics exactly when documented, otherwise performs the documented change
     let applied = {
         let d2 = d.clone();
@@ -208,6 +259,34 @@ pub fn run_c18(p: &Params) -> Outcome {
         let case = json!({"gen": gen2, "case": i, "seed": seed});
         check_one(&v, &d, out, &case);
     }));
+    // vectors and payloads whose internal structure comes from a history (several leaves although short,
+    // shifted front, carved out of larger vectors)
+    let gen3 = "c18-rand-shaped";
+    out.merge(p.cases(gen3, p.n(20_000, 1_000_000), |i, out| {
+        let mut rng = Rng::new(mix(seed, mix(hash_of(&gen3), i)));
+        let len = if rng.chance(1, 2) { rng.below(12) } else { rng.below(200) };
+        let v: Vec<u32> = (0..len).map(|_| rng.below(50) as u32).collect();
+        let val = rng.below(50) as u32;
+        let idx = if rng.chance(1, 6) { len + rng.below(3) } else { rng.below(len + 1) };
+        let plen = if rng.chance(1, 2) { rng.below(10) } else { rng.below(150) };
+        let payload: Vec<u32> = (0..plen).map(|_| rng.below(50) as u32).collect();
+        let d = match rng.below(14) {
+            0..=3 => VectorDiff::Append { values: shaped(&mut rng, &payload) },
+            4 => VectorDiff::Clear,
+            5 => VectorDiff::PushFront { value: val },
+            6 => VectorDiff::PushBack { value: val },
+            7 => VectorDiff::PopFront,
+            8 => VectorDiff::PopBack,
+            9 => VectorDiff::Insert { index: idx, value: val },
+            10 => VectorDiff::Set { index: idx, value: val },
+            11 => VectorDiff::Remove { index: idx },
+            12 => VectorDiff::Truncate { length: idx },
+            _ => VectorDiff::Reset { values: shaped(&mut rng, &payload) },
+        };
+        let case = json!({"gen": gen3, "case": i, "seed": seed});
+        let vec0 = shaped(&mut rng, &v);
+        check_one_on(&v, vec0, &d, out, &case);
+    }));
     out
 }
 
@@ -281,6 +360,8 @@ pub fn run_c20(p: &Params) -> Outcome {
         drop_pm: 15,
         trav: true,
         init_max: 6,
+        lazy_only: false,
+        far_runs: false,
     };
     let gen_b = "c20-adp";
     out.merge(p.cases(gen_b, p.n(40_000, 1_000_000), |i, out| {
@@ -296,6 +377,26 @@ pub fn run_c20(p: &Params) -> Outcome {
         }
         judge_adp("C20", &h, &p.known, json!({"gen": gen_b, "case": i, "seed": seed}), out, &|f| f.diffs_in >= 1);
     }));
+    // (b2) the same on large vectors (several imbl chunks; in-place tree surgery on elements that own memory)
+    if !p.san() {
+        let gbig = AGen { maxlen: 110, init_max: 90, vmax: 400, max_ops: 30, ..ag.clone() };
+        let gen_b2 = "c20-adp-large";
+        out.merge(p.cases(gen_b2, p.n(4_000, 100_000), |i, out| {
+            let mut rng = Rng::new(mix(seed, mix(hash_of(&gen_b2), i)));
+            let n = rng.range(1, 2);
+            let chain: Vec<Stage> = (0..n).map(|_| gen_stage(&mut rng, ALL_PKS, 80)).collect();
+            let batched = rng.chance(1, 2);
+            let h: AdpHistory = gen_adp_history(&mut rng, chain, batched, &gbig);
+            judge_adp("C20", &h, &p.known, json!({"gen": gen_b2, "case": i, "seed": seed}), out, &|f| f.diffs_in >= 1);
+        }));
+        let big = GenCfg { maxlen: 160, init_max: 130, vmax: 500, max_ops: 40, ..g };
+        let gen_a2 = "c20-vec-large";
+        out.merge(p.cases(gen_a2, p.n(3_000, 60_000), |i, out| {
+            let mut rng = Rng::new(mix(seed, mix(hash_of(&gen_a2), i)));
+            let h = gen_vec_history(&mut rng, &big);
+            judge_vec("C20", &h, json!({"gen": gen_a2, "case": i, "seed": seed}), out, &nt_vec);
+        }));
+    }
     // (c) observables, both flavours (incl. into_shared with and without subscribers)
     let gen_c = "c20-obs";
     out.merge(p.cases(gen_c, p.n(20_000, 500_000), |i, out| {
